@@ -35,7 +35,12 @@ def COLLECTOR : Addr := 6
 def HELPER : Addr := 7
 def PAIR : Addr := 8
 
-/-- factory configuration + the kind of the LP asset. Assets: 0 = LP, 1, 2 native, 3, 4 cw20. -/
+/-- factory configuration + the kind of the LP asset. Assets: 0 = LP, 1, 2 native, 3, 4 cw20;
+    5 … 9 are the same five NAMES in the WRONG KIND (`a + 5` is the look-alike of `a`): the native denom
+    that spells a cw20 token's address — an ordinary native asset, distinct from the token, which anybody
+    may hold and open flows in — and the cw20 `Token { contract_addr }` that spells a native denom, behind
+    which there is no contract (`Cfg.dead`): every query or message sent there fails. `AssetInfo` equality
+    in the contract is equality of kind AND name, i.e. equality of asset ids here. -/
 structure Cfg where
   lpNative : Bool
   feeAsset : Nat
@@ -46,7 +51,15 @@ structure Cfg where
   maxDur : Nat
 deriving Repr, DecidableEq
 
-def Cfg.native (c : Cfg) (a : Nat) : Bool := if a = 0 then c.lpNative else (a = 1 || a = 2)
+def Cfg.native (c : Cfg) (a : Nat) : Bool :=
+  if a = 0 then c.lpNative
+  else if a < 5 then (a = 1 || a = 2)
+  else if a = 5 then !c.lpNative
+  else (a = 8 || a = 9)
+
+/-- a cw20 asset id with no token contract behind it (the `Token` that spells a native denom; ids past the
+    universe likewise) -/
+def Cfg.dead (c : Cfg) (a : Nat) : Bool := !c.native a && decide (5 ≤ a)
 
 /-! ### association lists -/
 section AList
@@ -139,6 +152,9 @@ inductive Op where
   | expandFlow (id asset amt : Nat) (end_ : Option Nat)
   | closeFlow (id : Nat)
   | helperDeposit (a0 a1 dur : Nat)
+  /-- the helper deposit with the two assets NAMED `x0`, `x1` instead of the pair's own 1 and 3 (`x0 = 6`:
+      the token that spells `uwhale`; `x1 = 8`: the denom that spells cw20 A's address) -/
+  | helperDepositAs (x0 x1 a0 a1 dur : Nat)
 deriving Repr, DecidableEq
 
 /-! ### token ledgers and messages -/
@@ -167,9 +183,11 @@ def applyMsg (c : Cfg) (b : Bal) (allow : List (Nat × Nat)) : Msg → Res (Bal 
       if amt = 0 then .err
       else if aget b (src, a) < amt then .err
       else .ok (moveBal b src dst a amt, allow)
+    else if c.dead a then .err            -- no contract at that address
     else
       if aget b (src, a) < amt then .err else .ok (moveBal b src dst a amt, allow)
   | .pull owner dst a amt =>
+    if c.dead a then .err else            -- no contract at that address
     match alook allow a with
     | none => .err                      -- NoAllowance
     | some al =>
@@ -813,6 +831,9 @@ def handler (c : Cfg) (s : St) (e : Env) : Op → Res (St × List Msg)
   | .expandFlow id a amt en => expandFlow c s e id a amt en
   | .closeFlow id => closeFlow s e id
   | .helperDeposit _ _ _ => .err
+  -- assets named in the wrong kind: the helper's allowance query on a token that does not exist fails, and the
+  -- pair refuses assets that are not its own (reply: `DepositCallback` error); everything is rolled back
+  | .helperDepositAs _ _ _ _ _ => .err
 
 /-- one transaction: attach funds, run the handler, apply its messages; all or nothing -/
 def step (c : Cfg) (s : St) (e : Env) (op : Op) : Res St :=
